@@ -32,7 +32,7 @@ ASSUMPTIONS = [
 ]
 NOW = datetime.datetime(2024, 3, 1, 12, 0, 3, 500000, tzinfo=datetime.timezone.utc)
 
-VALUES = ['', 'none', '0', '-1', '1.5', 'abc', '1e9', '9' * 30, '2147483647', '-2147483647', 'a,b', '=', '503=', '503=abc', '503=5', '99:99:99Z',
+VALUES = ['', 'none', '0', '-1', '1.5', 'abc', '1e9', '9' * 30, '2147483647', '-2147483647', 'PT5S', '503=PT5S', '\u00b2', '503=\u00b2', '\u0663', 'a,b', '=', '503=', '503=abc', '503=5', '99:99:99Z',
           '2024-13-45T00:00:00Z', '%00', 'x' * 4096, 'unknown-drm', 'playready-nowhere', 'true', '12:00:04Z',
           '404=12:00:04Z', '503=5,404=6', '-5', '2024-03-01T00:00:00Z', '[1]', '{"a":1}', '1,2,3', 'é',
           'all', 'playready', 'clearkey-moov', 'ping', 'scte35', 'ec-3', 'xsd', 'ntp', '1', 'epoch', 'now']
@@ -62,6 +62,8 @@ def route_instances():
             out.append(('mps-media', f'/mps/{mode}/testmps/1/bbb_v7/{big}.m4v'))
             out.append(('mps-media', f'/mps/{mode}/testmps/1/bbb_v7/time/{big}.m4v'))
         out.append(('mps-media', f'/mps/{mode}/testmps/{"9" * 22}/bbb_v7/2.m4v'))
+    out += [('media', LIVE_SEG), ('media', VOD_ENC_SEG), ('media', f'/dash/live/bbb/bbb_a1/20.m4a?{LIVE_START}'),
+            ('media', f'/dash/live/bbb/bbb_v7_enc/20.m4v?drm=playready&{LIVE_START}')]
     out += [('patch', '/patch/bbb/hand_made/1709294400'), ('patch', '/patch/bbb/manifest_e/1709294400'),
             ('patch', '/patch/synempty/hand_made/1'), ('mps', '/mps/live/testmps/hand_made.mpd'),
             ('mps', '/mps/vod/testmps/hand_made.mpd'), ('mps', '/mps/vod/nosuch/hand_made.mpd'),
@@ -76,6 +78,16 @@ def route_instances():
             ('html', '/stream/1/1'), ('html', '/stream/1/1/segments'), ('html', '/stream/1/1/segment/2'),
             ('html', '/stream/1/1/segment/99')]
     return out
+
+
+def with_query(path, opts):
+    q = crawl.make_query(opts)
+    if not q:
+        return path
+    return path + ('&' + q[1:] if '?' in path else q)
+
+
+LIVE_START = 'start=2024-03-01T11:58:00Z'      # NOW is 123.5 s later: live segment 20 (4 s segments) is inside the window
 
 
 def option_names():
@@ -136,9 +148,14 @@ def judge(acc, kind, url, headers, resp, rec):
         acc.nontriv((url, str(headers)))
 
 
-PRIMARY = ('/dash/live/bbb/hand_made.mpd', '/dash/vod/bbb/hand_made.mpd', '/dash/live/bbb/bbb_v7/3.m4v',
-           '/dash/vod/bbb/bbb_v7_enc/3.m4v', '/patch/bbb/hand_made/1709294400', '/mps/live/testmps/hand_made.mpd',
+LIVE_SEG = f'/dash/live/bbb/bbb_v7/20.m4v?{LIVE_START}'
+VOD_ENC_SEG = '/dash/vod/bbb/bbb_v7_enc/3.m4v?drm=all'
+PRIMARY = ('/dash/live/bbb/hand_made.mpd', '/dash/vod/bbb/hand_made.mpd', LIVE_SEG, '/dash/vod/bbb/bbb_v7/3.m4v',
+           VOD_ENC_SEG, '/patch/bbb/hand_made/1709294400', '/mps/live/testmps/hand_made.mpd',
            '/dash/live/synempty/hand_made.mpd', '/dash/vod/synunidx/hand_made.mpd', '/dash/live/synnoref/hand_made.mpd')
+# these must answer 200 without hostile options, otherwise the option code behind them is never reached (non-vacuity)
+MUST_SERVE = ('/dash/live/bbb/hand_made.mpd', '/dash/vod/bbb/hand_made.mpd', LIVE_SEG, '/dash/vod/bbb/bbb_v7/3.m4v', VOD_ENC_SEG,
+              '/mps/live/testmps/hand_made.mpd')
 QUICK_VALUES = ['', 'abc', '9' * 30, '503=', 'all', '1']
 
 
@@ -151,7 +168,7 @@ def hostile_item(arg):
     values = VALUES if (tier != 'quick' or path in PRIMARY) else QUICK_VALUES
     for name in names:
         for v in values + [x for x in choice_variants(name) if x not in values]:
-            url = path + crawl.make_query({name: v})
+            url = with_query(path, {name: v})
             r = w.get(url)
             acc.state((path, name, v[:16], len(v)))
             judge(acc, kind, url, None, r, {'kind': 'hostile', 'rkind': kind, 'url': url, 'option': name})
@@ -177,7 +194,7 @@ def pair_item(arg):
     a, b = pair
     for va in PAIR_VALUES.get(a, ['1']):
         for vb in PAIR_VALUES.get(b, VALUES if tier != 'quick' else ['', '0', '-1', 'abc', '9' * 30, '1.5']):
-            url = path + crawl.make_query({a: va, b: vb})
+            url = with_query(path, {a: va, b: vb})
             r = w.get(url)
             acc.state((path, a, va, b, vb[:16]))
             judge(acc, kind, url, None, r, {'kind': 'hostile', 'rkind': kind, 'url': url, 'option': f'{a}+{b}'})
@@ -306,8 +323,15 @@ def run(ctx):
         for ch in core.chunks(nm, 12):
             items.append(('hostile', (kind, path, ch, ctx.tier)))
     pair_routes = [r for r in routes if r[1] in ('/dash/live/bbb/hand_made.mpd', '/dash/vod/bbb/hand_made.mpd',
-                                                  '/dash/live/bbb/bbb_v7/3.m4v', '/dash/vod/bbb/bbb_v7_enc/3.m4v',
+                                                  LIVE_SEG, '/dash/vod/bbb/bbb_v7/3.m4v', VOD_ENC_SEG,
                                                   '/mps/live/testmps/hand_made.mpd', '/patch/bbb/hand_made/1709294400')]
+    w0 = W.World.shared(extras=True)
+    W.set_now(NOW)
+    for path in MUST_SERVE:
+        r0 = w0.get(path)
+        if r0.status != 200:
+            raise core.HarnessError(f'C16: the base request {path} answers {r0.status}: the option code behind it would not be '
+                                    f'reached')
     for kind, path in pair_routes:
         for pair in PAIRS:
             items.append(('pair', (kind, path, pair, ctx.tier)))
